@@ -36,7 +36,17 @@ def fval(j):
     return float.fromhex(j['f']) if j['f'] not in ('nan', 'inf', '-inf') else float(j['f'])
 
 
+F32_OVERFLOW = 2 ** 128 - 2 ** 103     # midpoint between the largest binary32 and 2**128 (ties to even: up)
+
+
+def f32_overflows(x):
+    """a FINITE binary64 that rounds to a binary32 infinity: no 32-bit representation (exact arithmetic)"""
+    return x == x and abs(x) != float('inf') and abs(Fraction(x)) >= F32_OVERFLOW
+
+
 def f32bits(x):
+    if f32_overflows(x):
+        return 2 ** 32                 # no pattern (the Lean model decides the same from the exact value)
     return struct.unpack('>I', struct.pack('>f', x))[0]
 
 
@@ -152,6 +162,8 @@ def expect_msg(args, send, off):
                 raise Refuse('int out of int32')
             flat.append(('i', a))
         elif is_float(a):
+            if f32_overflows(fval(a)):
+                raise Refuse('finite float beyond the binary32 range')   # never sent as an infinity
             flat.append(('f', f32bits(fval(a))))
         elif is_str(a):
             if a['s'] == '[':
@@ -368,7 +380,8 @@ class Check(common.Check):
 
     def rule(self):
         return ('messages: address over printable ASCII (all lengths mod 4; rarely empty / no slash / non-ASCII / NUL / '
-                'non-str), 0-8 arguments over int32 edges and out-of-range ints, dyadic and non-dyadic floats, nan/inf, '
+                'non-str), 0-8 arguments over int32 edges and out-of-range ints, dyadic and non-dyadic floats, nan/inf, the edge of the binary32 range '
+                '(largest binary32, first overflowing value, 1e39, 1e300, float max, smallest subnormal), '
                 'ASCII and non-ASCII str incl. NUL and lone surrogates, bytes/bytearray/memoryview of length 0-70, bool, '
                 'None, [], nested message and bundle lists to depth 4, malformed lists, array markers balanced and not, '
                 'MIDI tuples, unsupported objects; bundles: latency None/negative/0/positive dyadic/bool, nested bundles '
@@ -425,6 +438,13 @@ class Check(common.Check):
             return jf(rng.choice([0.1, -0.3, 1e-50, 3.4e38, 1e30, 16777217.0, -0.0, 1.0000001]))
         if r < 0.9:
             return jf(rng.choice([float('nan'), float('inf'), float('-inf')]))
+        if r < 0.97:                                              # the edge of the binary32 range, both sides
+            big = float.fromhex('0x1.fffffep+127')                # largest binary32
+            edge = float.fromhex('0x1.ffffffp+127')               # 2**128 - 2**103: the first value that overflows
+            return jf(rng.choice([1, -1]) * rng.choice([
+                big, edge, float.fromhex('0x1.fffffefffffffp+127'), float.fromhex('0x1.ffffff0000001p+127'),
+                3.5e38, 1e39, 1e300, sys.float_info.max, 2.0 ** 128, float('inf'),
+                float.fromhex('0x1p-149'), float.fromhex('0x1p-150'), float.fromhex('0x1.8p-150'), 5e-324]))
         return jf(rng.uniform(-1e6, 1e6))
 
     def g_bytes(self, rng):
@@ -1078,7 +1098,7 @@ class Check(common.Check):
 
 Check.THEOREMS = ['Sc3Verif.C06.' + t for t in (
     'msg_roundtrip', 'nestRun_iff_flat', 'bundle_roundtrip', 'packet_roundtrip', 'packet_order', 'nested_msg_blob',
-    'nested_bundle_blob', 'coercions', 'validUtf8_string', 'refused_not_altered', 'representable_accepted', 'accepted_parses',
+    'nested_bundle_blob', 'coercions', 'validUtf8_string', 'refused_not_altered', 'float_refused_or_verbatim', 'representable_accepted', 'accepted_parses',
     'aligned4', 'string_blob_layout', 'message_layout', 'big_endian', 'element_size_prefix', 'frame_reads_back',
     'predict_ge_real_msg', 'predict_ge_real_bundle', 'clump_concat', 'clump_within_limit',
     'send_clumped_within_limit', 'sync_within_limit', 'd_recv_within_limit', 'bundle_netaddr_carries_all', 'decoder_total')]
